@@ -271,6 +271,30 @@ def r8_4(prog, rep):
                     f"`{short(par) if par is not None else unparse(a)}`: index labels become values or sizes (non-default indexes change the result)")
     if n < 3:
         raise AnalysisError("R8.4: fewer than 3 reads of `.index` found (expected the row-count idiom len(frame.index))")
+    # no value is re-labelled on the way: every pandas object of one evaluation keeps the labels of the frame it came from, so
+    # label-aligned operations (Series arithmetic, two-argument ufuncs, user functions) combine the same rows
+    RELABEL = ("reset_index", "set_index", "reindex", "reindex_like", "sort_index", "set_axis", "droplevel", "swaplevel")
+    hits = []
+    scanned = 0
+    for q, f in sorted(prog.functions.items()):
+        if f.parent is not None or q == "formulae.matrices.design_matrices":
+            continue
+        scanned += 1
+        for x in ast.walk(f.node):
+            if isinstance(x, ast.Call) and isinstance(x.func, ast.Attribute) and x.func.attr in RELABEL:
+                hits.append((f, x, f".{x.func.attr}()"))
+            if isinstance(x, ast.Attribute) and x.attr == "index" and isinstance(x.ctx, ast.Store):
+                hits.append((f, x, "store to .index"))
+            if isinstance(x, ast.Call) and (dotted(x.func) or "") in ("pd.Series", "pd.DataFrame") and any(k.arg == "index" for k in x.keywords):
+                hits.append((f, x, "explicit index= of a new pandas object"))
+    for f, x, what in hits:
+        obl(rep, f, x, "R8.4", False, f"`{short(x, 70)}`", "",
+            f"{what}: this value gets other index labels than the values evaluated next to it; wherever the two meet in a "
+            "label-aligned operation, rows are combined by label, so a frame with a non-default index (permuted, filtered, relabelled) "
+            "gives different numbers")
+    anchor = prog.fn("terms.call_resolver.LazyOperator.eval")
+    obl(rep, anchor, anchor.node, "R8.4", not hits, "no evaluation code re-labels the index of a value (reset_index / set_index / reindex / "
+        "sort_index / .index = / index=)", f"{scanned} functions scanned")
 
 
 def r8_5(prog, rep):
